@@ -44,6 +44,15 @@ def install_format_stub():
     opcode_intercept.FormatStashingValue.__str__ = __str__
 
 
+def keep_lru_cache():
+    # CrossHair bypasses functools.lru_cache (calls __wrapped__) to keep paths independent; obligations about
+    # hidden cross-call state need the real cache
+    import functools
+    from crosshair import core_and_libs  # noqa: registrations loaded
+    from crosshair import core
+    core._PATCH_REGISTRATIONS.pop(functools._lru_cache_wrapper.__call__, None)
+
+
 def analyse(fn, timeout, per_path=None):
     from crosshair.core_and_libs import analyze_function, run_checkables
     from crosshair.options import AnalysisOptionSet
@@ -79,6 +88,8 @@ def main():
         set_debug(True)
     if (spec.get('extra') or {}).get('format_stub', True):
         install_format_stub()
+    if (spec.get('extra') or {}).get('keep_lru_cache'):
+        keep_lru_cache()
     import importlib
     from sqv import hlib
     hlib.PARAM = spec.get("param")
